@@ -2,8 +2,6 @@ use std::fmt::{Display, Formatter};
 
 const PROJECT_PREFIX: &str = "projects/";
 const SUBSCRIPTION_PREFIX: &str = "/subscriptions/";
-const PROJECT_PREFIX_LEN: usize = PROJECT_PREFIX.len();
-const SUBSCRIPTION_PREFIX_LEN: usize = SUBSCRIPTION_PREFIX.len();
 
 /// A `SubscriptionName` contains the project and the subscription.
 #[derive(Debug, Clone, PartialEq, Eq, Hash)]
@@ -23,24 +21,17 @@ impl SubscriptionName {
 
     /// Attempts to parse a subscription name.
     pub fn try_parse(unparsed: &str) -> Option<Self> {
-        // Check that the length of the input is at least as long as something that contains
-        // a valid subscription name.
-        if unparsed.len() <= PROJECT_PREFIX_LEN + SUBSCRIPTION_PREFIX_LEN + 2 {
+        // `projects/{project}` + `/subscriptions/` + `{id}`: the project runs up to the
+        // first slash, the resource segment must follow literally, and the ID
+        // is whatever is left. Neither ID may be empty or contain a slash.
+        let rest = unparsed.strip_prefix(PROJECT_PREFIX)?;
+        let project_id = rest.get(..rest.find('/')?)?;
+        let subscription_id = rest
+            .get(project_id.len()..)?
+            .strip_prefix(SUBSCRIPTION_PREFIX)?;
+        if project_id.is_empty() || subscription_id.is_empty() || subscription_id.contains('/') {
             return None;
         }
-
-        // Check that we start with the subscription prefix.
-        if !unparsed.starts_with(PROJECT_PREFIX) {
-            return None;
-        }
-
-        // Extract the project ID.
-        let project_id = unparsed.get(PROJECT_PREFIX_LEN..)?;
-        let project_id = project_id.get(..project_id.find('/')?)?;
-
-        // Extract the subscription ID
-        let start = PROJECT_PREFIX_LEN + project_id.len() + SUBSCRIPTION_PREFIX_LEN;
-        let subscription_id = unparsed.get(start..).map(|s| s.trim_matches('/'))?;
 
         Some(SubscriptionName {
             project_id: project_id.into(),
